@@ -24,4 +24,15 @@ theorem gen_table : Generated.C10.facts = tableStrings := by decide
 /-- the coordinator stops the processes both when it refuses a duplicate and when a session exits -/
 theorem gen_coordinator_stops : Generated.C10.refusalStops = true ∧ Generated.C10.deferStops = true := by decide
 
+/-- a handler body, from the process constructor on: Execute follows the constructor directly (no return in between,
+    which would leave a constructor-held lock behind) and nothing stops the process afterwards (Execute already has) -/
+def handlerShape : List String → Bool
+  | "new" :: "execute" :: rest => rest.all (· == "ret")
+  | _ => false
+
+/-- the three production entry points are "constructor, Execute, return": what `handlerFrom false` models -/
+theorem gen_handlers :
+    Generated.C10.handlers.map (·.1) = ["KeygenEventHandler", "FrostKeygenEventHandler", "RefreshEventHandler"] ∧
+    (Generated.C10.handlers.all fun h => handlerShape h.2) = true := by decide
+
 end Sygma.C10
